@@ -33,12 +33,13 @@ class _SingleEvent:
     """
     def __init__(self, multievent, timeout, name=None):
         self.multievent = multievent
-        self.multievent.clear_(self)
         self.name = name
         if timeout is None:
             self.deadline = ETERNITY
         else:
             self.deadline = time.monotonic() + timeout
+        # register last: other threads look at name and deadline as soon as we are in the list
+        self.multievent.clear_(self)
 
     def clear(self):
         self.multievent.clear_(self)
